@@ -47,7 +47,7 @@ REAL_VS_STUB = {
     "stub": ["frame source: simkit.scenes camera with degenerate-frame faults", "disk: simkit.simfs"],
 }
 TIERS = {
-    "quick": {"runs": 4000, "budget_s": 70, "chunk": 25, "det_pairs": 48, "fresh": 4},
+    "quick": {"runs": 9000, "budget_s": 60, "chunk": 25, "det_pairs": 48, "fresh": 4},
     "thorough": {"runs": 60000, "budget_s": 900, "chunk": 30, "det_pairs": 384, "fresh": 24},
 }
 
@@ -202,9 +202,19 @@ def generate(streams: Streams, tier: str, index: int) -> dict:
         return {"stress": _gen_stress(rng)}
     grid = _gen_grid(rng)
     frames = [_gen_frame(rng, grid) for _ in range(rng.choice([1, 1, 2, 3, 5]))]
+    trk_opts = _gen_options(rng, grid)
     case = {"grid": grid, "frames": frames, "locate": _gen_options(rng, grid),
+            # the caller keeps ONE options dict (incl. the nested refine_args) and passes it to
+            # every call of the run, as scripts do; otherwise every call gets a fresh copy
+            "share_args": rng.random() < 0.6,
+            # a further call on the first frame with the same refine_args but another mode count
+            "second_modes": rng.choice([None, None, 0, 1, 2, 3]),
             "tracker": {"threshold": rng.choice([0.5, "auto", "otsu"]),
-                        "refine": rng.random() < 0.2, "modes": 0,
+                        "refine": rng.random() < 0.2,
+                        "modes": trk_opts["modes"] if rng.random() < 0.3 else 0,
+                        "refine_args": trk_opts.get("refine_args") if rng.random() < 0.5 else
+                        {"least_squares_params": {"max_nfev": 6}},
+                        "minimal_radius": rng.choice([0, 0, 0.5, -1]),
                         "length_method": rng.choice(["structure_factor_mean",
                                                      "structure_factor_maximum", "droplet_detection"])},
             "tracking": {"method": rng.choice(["overlap", "distance"]), "grid": rng.random() < 0.5,
@@ -368,8 +378,19 @@ def execute(case: dict) -> Outcome:
             cells.append(("render", fam, dim, c))
     # ---- stage 2: locating with the option swarm
     emulsions = []
-    for fi, fld in fields:
-        kw = {k: copy.deepcopy(v) for k, v in opts.items()}
+    shared_kw = {k: copy.deepcopy(v) for k, v in opts.items()}
+    calls = [(fi, fld, None) for fi, fld in fields]
+    if fields and case.get("second_modes") is not None and opts["refine"] and dim in (2, 3):
+        calls.insert(1, (fields[0][0], fields[0][1], case["second_modes"]))
+    for fi, fld, other_modes in calls:
+        if case.get("share_args"):
+            kw = shared_kw
+        else:
+            kw = {k: copy.deepcopy(v) for k, v in opts.items()}
+        if other_modes is not None:
+            # same (possibly shared) refine_args object, another droplet model
+            kw = {**kw, "modes": other_modes}
+            cnt.inc("probe.second_call_other_modes")
         tag = case["frames"][fi].get("tag", "scene")
         ok, em = guard("locate", lambda: locate_droplets(fld.copy(), **kw),
                        {"modes": str(opts["modes"] > 0), "refine": str(opts["refine"])})
@@ -384,13 +405,18 @@ def execute(case: dict) -> Outcome:
             V.append(Violation("C09.O2", msg + f" (frame kind {tag}, options {opts})",
                                {"stage": "locate", "family": fam, "modes": str(opts["modes"] > 0),
                                 "refine": str(opts["refine"])}))
-        emulsions.append((fi, em))
+        if other_modes is None:
+            emulsions.append((fi, em))
         log.add("located", frame=fi, n=len(em), fp=scenes.emulsion_fingerprint(em)[:6])
     # ---- stage 3: tracker callbacks (a crash here aborts a whole simulation)
     tk = case["tracker"]
     if fields:
+        tk_modes = tk.get("modes", 0) if dim in (2, 3) else 0
         dt = droplets.DropletTracker(1, threshold=tk["threshold"], refine=tk["refine"],
-                                     refine_args={"least_squares_params": {"max_nfev": 6}})
+                                     minimal_radius=tk.get("minimal_radius", 0),
+                                     perturbation_modes=tk_modes,
+                                     refine_args=copy.deepcopy(tk.get("refine_args")) or
+                                     {"least_squares_params": {"max_nfev": 6}})
         lt = droplets.LengthScaleTracker(1, method=tk["length_method"])
         ok, _ = guard("tracker.initialize", lambda: (dt.initialize(fields[0][1], {}),
                                                      lt.initialize(fields[0][1], {})))
